@@ -39,6 +39,9 @@ def run(ctx, rep, tier):
     # the cached norms that normalise the residual figures must follow in-place data updates
     sub = _Renamed(rep, 'C08.R4', 'C01.R8')
     c08.caches_and_mirrors(sub, ctx.facts('default'), ctx.eff('default'), ctx.cg('default'), '')
+    # the internal problem the verdict is about is built from the presolved-or-original data consistently
+    from . import c18
+    c18.stage_rules(ctx, rep, 'C01.R10')
 
 
 class _Renamed:
